@@ -12,6 +12,10 @@ option grid, dna[...] lookups, node.spec.id / subchoice_index of every node, nex
 clone, pg.evolution.mutators.Swap.
 """
 
+import json
+import random as _random
+import re
+
 from harness.common.framework import Prop, CaseTimeout
 from harness import c11_geno as G
 from harness import c11 as H
@@ -54,6 +58,14 @@ def decorate(spec, rng):
         p['lits'] = [10 + i for i in range(n)]
       elif m < 6:
         p['lits'] = [('s%d' % i) if i % 2 else 100 + i for i in range(n)]
+      elif m < 8:
+        # float literals, some of them very close to each other (tiny learning rates, epsilons)
+        pool = [1e-7, 3e-7, 1e-6, 1e-3, 0.25, 0.2500004, 0.5, 0.1, 2.5, 1.5e10, 0.30000000000000004, 0.3]
+        start = rng.below(len(pool))
+        vals = [pool[(start + i) % len(pool)] for i in range(n)]
+        p['lits'] = [{'f': list(v.as_integer_ratio())} for v in vals]
+        if n >= 3 and rng.chance(0.3):
+          p['lits'][n - 1] = 'relu'
       for c in p['cands']:
         for q in c:
           point(q, in_multi or p['k'] > 1)
@@ -116,8 +128,22 @@ def nest_j(x):
   return {'v': x}
 
 
+_CHOICE_LIT = re.compile(r'^(\d+)/(\d+) \((.*)\)$', re.S)
+
+
 def canon_value(v):
   from pyglove.core import geno
+  if isinstance(v, str):
+    # 'i/n (literal)' with a float literal: the model prints the exact ratio, Python its repr
+    m = _CHOICE_LIT.match(v)
+    if m and any(c in m.group(3) for c in '.e') and not m.group(3)[:1].isalpha():
+      try:
+        f = float(m.group(3))
+        if repr(f) == m.group(3):
+          return '%s/%s (%d/%d)' % ((m.group(1), m.group(2)) + f.as_integer_ratio())
+      except ValueError:
+        pass
+    return v
   if isinstance(v, geno.DNA):
     return {'dna': H.tree_of(v)}
   if isinstance(v, float):
@@ -233,7 +259,12 @@ class C12(Prop):
           '(for the evolution operators the model is given the raw tree they return and predicts its bindings); '
           'plus a family of conditional choices nested in conditional choices with all their members, and named float '
           'points inside the candidates of non-distinct multi-choices (several positions active, name_or_id keys); '
-          'all look-ups (dna[dp], dna[id], dna[name], decision_ids, named_decisions) are made before and after every step. Non-trivial: the member has at least 2 nodes; '
+          'all look-ups (dna[dp], dna[id], dna[name], decision_ids, named_decisions) are made before and after every step; '
+          'every decision point of the spec (active or not) must be answerable by id and by decision point, and every id a '
+          'bound node advertises must resolve on that node; specs are built in steps (every part is inspected - decision_ids, '
+          'get(id) - before it is composed); float literal values incl. pairs closer than 1e-6; permutation points '
+          '(manyof(k) of k candidates with nested decisions) with from_dict of moved bound sub-DNAs and the PartiallyMapped / '
+          'Order / Cycle crossovers as producers; a member with every float at 0.0 / its bound. Non-trivial: the member has at least 2 nodes; '
           'distinct: by case JSON.')
   trusted_base = [
       'harness/c11_geno.py reference of members (case generation) and swap_sites (which node Swap picks)',
@@ -257,16 +288,20 @@ class C12(Prop):
                  'DNA objects are only built through the DNA constructor']
 
   # -- generation -------------------------------------------------------------------------
-  def make_case(self, spec, rng, n_members=3, n_chains=2, all_members=False):
+  def make_case(self, spec, rng, n_members=3, n_chains=2, all_members=False, permute_w=None, max_all=40):
     finite = G.is_finite(spec)
+    if permute_w is None:
+      permute_w = 3 if any(p['t'] == 'c' and p['k'] > 1 and not p['s'] for p in G.points(spec)) else 0
     members = []
     if finite and G.size_bound(spec) <= 300:
       allm = sorted(G.ref_all(spec), key=lambda t: repr(G.freeze(t)))
       members += [allm[0], allm[-1]]
       if all_members and len(allm) <= 40:
-        members += allm
+        members += allm if len(allm) <= max_all else [allm[i * len(allm) // max_all] for i in range(max_all)]
     for _ in range(n_members):
       members.append(G.ref_member(spec, rng))
+    if not finite:
+      members.append(G.ref_member(spec, rng, floats='edge'))   # floats that are exactly 0.0 / on their bound
     uniq, seen = [], set()
     for m in members:
       k = G.freeze(m)
@@ -281,9 +316,16 @@ class C12(Prop):
       opaque = False
       for _ in range(rng.randint(1, 5)):
         kind = rng.weighted([(3, 'next'), (2, 'clone'), (2, 'renumber'), (2, 'redict'), (1, 'rejson'),
-                             (4, 'swap'), (2, 'random'), (5, 'uniform'), (3, 'recombine')])
+                             (4, 'swap'), (2, 'random'), (5, 'uniform'), (3, 'recombine'), (permute_w, 'permute')])
         if kind == 'next' and not finite:
           kind = 'clone'
+        if kind == 'permute':
+          # sub-DNAs that are already bound move to other positions of their multi-choice: from_dict with moved
+          # bound DNA values, and the permutation crossovers (which do the same)
+          ops.append({'op': 'permute', 'kind': rng.choice(['redict', 'redict', 'pmx', 'order', 'cycle']),
+                      'seed': rng.below(1 << 20), 'other': G.ref_member(spec, rng)})
+          opaque = True
+          continue
         if kind in ('uniform', 'recombine') and not G.points(spec):
           kind = 'clone'         # Uniform raises 'Immutable DNA' by design on a space without decisions
         if opaque and kind in ('swap', 'next'):
@@ -328,7 +370,7 @@ class C12(Prop):
     return {'op': 'views', 'spec': spec, 'dnas': uniq, 'chains': chains}
 
   def generate(self, rng, tier):
-    n = 90 if tier == 'quick' else 1500
+    n = 55 if tier == 'quick' else 1500
     for i in range(n):
       allow_inf = (i % 4 == 3)
       spec = None
@@ -356,7 +398,8 @@ class C12(Prop):
       nested += [one, two, three, G.S([copy.deepcopy(two), G.C(1, [[], []])]),
                  G.C(2, [[copy.deepcopy(one)], [], []], True, False)]
     for p in (nested if tier == 'quick' else nested * 3):
-      yield self.make_case(decorate(copy.deepcopy(p), rng), rng, n_members=2, n_chains=2, all_members=True)
+      yield self.make_case(decorate(copy.deepcopy(p), rng), rng, n_members=2, n_chains=2, all_members=True,
+                           max_all=6 if tier == 'quick' else 40)
     # a NAMED float decision point inside the candidates of a multi-choice, several positions active
     for rep in range(1 if tier == 'quick' else 6):
       for k in (2, 3):
@@ -367,12 +410,28 @@ class C12(Prop):
           c = G.S([copy.deepcopy(a), G.C(1, [[], [G.F([0, 1], [2, 1], name='lr', loc=['w'])]], loc=['u'])])
           d = G.C(1, [[copy.deepcopy(a)], []], loc=['top'])
           for spec in (a, b, c, d):
-            yield self.make_case(copy.deepcopy(spec), rng, n_members=6 if tier == 'quick' else 8, n_chains=2)
+            yield self.make_case(copy.deepcopy(spec), rng, n_members=3 if tier == 'quick' else 8, n_chains=2)
+    # permutation points (manyof(k) of k candidates, distinct, unsorted) whose candidates carry nested decisions
+    for rep in range(1 if tier == 'quick' else 8):
+      for k in (2, 3, 4):
+        cands = [[G.C(1, [[], [], []], loc=['op'])] if rng.chance(0.7) else
+                 rng.choice([[], [G.C(1, [[], []], loc=['a']), G.C(1, [[], []], loc=['b'])],
+                             [G.F([0, 1], [1, 1], loc=['r'])]]) for _ in range(k)]
+        perm = G.C(k, cands, True, False, loc=['perm'], name='pm' if rng.chance(0.4) else None)
+        for spec in (perm, G.S([G.F([0, 1], [1, 1], loc=['lr']), copy.deepcopy(perm)]),
+                     G.C(1, [[copy.deepcopy(perm)], []], loc=['top'])):
+          spec = copy.deepcopy(spec)
+          yield self.make_case(spec, rng, n_members=2, n_chains=3, permute_w=30)
     fam = [p for p in G.family_points(max_n=3, max_k=3) if G.size_bound(p) <= 60]
-    picked = rng.sample(fam, 40) if tier == 'quick' else fam
+    picked = rng.sample(fam, 24) if tier == 'quick' else fam
     for p in picked:
       import copy
       yield self.make_case(decorate(copy.deepcopy(p), rng), rng, n_members=2, n_chains=2)
+
+  def search_cases(self, rng, tier, broken):
+    # quick: one more pass of the (light) quick generator, so that the search ends within about a minute
+    for _ in range(1 if tier == 'quick' else 2):
+      yield from self.generate(rng.fork(), tier)
 
   def model_request(self, case):
     return case
@@ -384,7 +443,7 @@ class C12(Prop):
     for ch, steps in zip(case['chains'], impl_out['model']['chains']):
       ops = []
       for i, op in enumerate(ch['ops']):
-        if op['op'] in ('uniform', 'recombine'):
+        if op['op'] in ('uniform', 'recombine', 'permute'):
           st = steps[i] if i < len(steps) else None
           if st is None or 'error' in st:
             break
@@ -467,7 +526,38 @@ class C12(Prop):
             return 'error:' + type(e).__name__
         a, b = get(d), get(rebuilt)
         look.append(True if a == b else [str(key)[:40], a, b])
+        if isinstance(a, str) and a.startswith('error:'):
+          # every decision point of the spec can be looked up: the decision made there, None if inactive
+          (obs.setdefault('name_lookup_raises', []) if key is dp.name else
+           obs.setdefault('lookup_raises', [])).append([str(dp.id), 'by ' + (
+               'name %r' % key if key is dp.name else 'id' if isinstance(key, str) else 'decision point'), a])
     obs['lookups'] = look
+    # the ids every bound node advertises resolve on that node
+    bad_ids, bad_sub = [], []
+
+    def walk(n):
+      if n.spec is not None:
+        try:
+          ids = list(n.decision_ids)
+        except CaseTimeout:
+          raise
+        except Exception as e:   # pylint: disable=broad-except
+          ids = []
+          bad_ids.append([str(getattr(n.spec, 'id', '?')), 'decision_ids', type(e).__name__])
+        for k in ids:
+          try:
+            n[k]
+          except CaseTimeout:
+            raise
+          except Exception as e:   # pylint: disable=broad-except
+            sub = getattr(n.spec, 'is_categorical', False) and n.spec.is_subchoice
+            (bad_sub if sub and str(k) == str(n.spec.parent_spec.id) else bad_ids).append(
+                [str(n.spec.id), str(k), type(e).__name__])
+      for c in n.children:
+        walk(c)
+    walk(d)
+    obs['node_ids_unresolved'] = bad_ids[:5]
+    obs['subchoice_node_parent_id_unresolved'] = bad_sub[:5]
     obs['lookups_identity'] = lookups(d, spec)[1]
     return out, obs
 
@@ -490,17 +580,45 @@ class C12(Prop):
                                                              multi_choice_key='both')) == o['dict2'])}
     return o, ob
 
+  def permute(self, spec, cur, op):
+    """A DNA assembled by DNA.from_dict from sub-DNAs that are already bound to OTHER positions of their
+    multi-choice: directly (two values of the dictionary view exchanged), or by a permutation crossover."""
+    from pyglove.core import geno
+    from pyglove.ext.evolution import recombinators
+    r = _random.Random(op['seed'])
+    if op['kind'] == 'redict':
+      dd = cur.to_dict(value_type='dna')
+      groups = {}
+      for dp in spec.decision_points:
+        if dp.is_categorical and dp.is_subchoice and not dp.parent_spec.sorted and str(dp.id) in dd:
+          groups.setdefault(str(dp.parent_spec.id), []).append(str(dp.id))
+      groups = [g for g in groups.values() if len(g) >= 2]
+      if not groups:
+        return cur.clone(deep=True)
+      g = r.choice(groups)
+      i, j = r.sample(range(len(g)), 2)
+      dd[g[i]], dd[g[j]] = dd[g[j]], dd[g[i]]
+      return geno.DNA.from_dict(dd, spec)
+    other = H.mk_dna(op['other'])
+    other.use_spec(spec)
+    cls = {'pmx': recombinators.PartiallyMapped, 'order': recombinators.Order, 'cycle': recombinators.Cycle}[op['kind']]
+    outs = cls(seed=op['seed']).recombine([cur, other], geno.AttributeDict(), 0)
+    outs = sorted(outs, key=lambda x: repr(x.to_numbers()))
+    moved = [x for x in outs if x.to_numbers() != cur.to_numbers()]
+    return (moved or outs)[0]
+
   def impl(self, case):
     from pyglove.core import geno
     import pyglove.core.symbolic as pg_sym
     from pyglove.ext.evolution import mutators
     spec_j = case['spec']
-    spec = H.build_spec(spec_j)
+    spec = H.build_spec(spec_j, touch=True)
     out, obs = {'dnas': [], 'chains': []}, {'dnas': [], 'chains': []}
     # no two decision points render to the same id: then the spec-keyed intermediate dictionary of
     # named_decisions is the id-keyed one of the model, and the look-up tables are compared
     all_ids = [str(dp.id) for dp in spec.decision_points]
     out['ids_unique'] = len(set(all_ids)) == len(all_ids)
+    out['dp_names'] = [{'name': dp.name} for dp in spec.decision_points]
     for t in case['dnas']:
       d = H.mk_dna(t)
       d.use_spec(spec)
@@ -540,6 +658,8 @@ class C12(Prop):
             r = (recombinators.Uniform(seed=op['seed']) if op['kind'] == 'uniform'
                  else recombinators.KPoint(1, seed=op['seed']))
             cur = r.recombine([cur, other], geno.AttributeDict(), 0)[0]
+          elif k == 'permute':
+            cur = self.permute(spec, cur, op)
           if cur is None:
             steps.append(None)
             break
@@ -576,8 +696,21 @@ class C12(Prop):
         for (kt, vt, mk), x, y in zip(GRID, da['from_dicts'], db.get('from_dicts') or []):
           chk('dna%d.from_dict(to_dict(%s,%s,%s))' % (i, kt, vt, mk), x, y)
         if a.get('ids_unique'):
+          def norm_items(t):
+            # dna[name] of an INACTIVE named decision point: KeyError before fix C12-F400, None after it
+            if not t or not t.get('items'):
+              return t
+            dead = {k for k, v in t.get('named', []) if v is None}
+            names = [p.get('name') for p in dp_names]
+            items = []
+            for it, nm in zip(t['items'], names):
+              items.append(it[:2] + ['inactive-name'] if len(it) == 3 and nm in dead and it[2] in (None, 'KeyError')
+                           else it)
+            return dict(t, items=items)
+          dp_names = a.get('dp_names') or []
+          ta, tb = norm_items(da['lookup_tables']), norm_items(db.get('lookup_tables') or {})
           for k in ('by_id', 'named', 'ids', 'items'):
-            chk('dna%d.lookup_tables.%s' % (i, k), da['lookup_tables'][k], (db.get('lookup_tables') or {}).get(k))
+            chk('dna%d.lookup_tables.%s' % (i, k), ta[k], (tb or {}).get(k))
         # C12_dict_roundtrip: where the model's decidable condition holds the CODE must round-trip
         for (kt, vt, mk), x, cond in zip(GRID, da['from_dicts'], db.get('dict_conds') or []):
           if cond and x != da['norm']:
@@ -604,7 +737,7 @@ class C12(Prop):
     """Is from_dict(to_dict(...)) promised to be the identity for this spec / option pair?"""
     for p in G.points(spec):
       if p['t'] == 'c' and p.get('lits') is not None and vt == 'literal':
-        lits = p['lits']
+        lits = [json.dumps(x, sort_keys=True) if isinstance(x, dict) else x for x in p['lits']]
         if len(set(map(str, lits))) != len(lits) or len(set(lits)) != len(lits):
           return False
     return True
@@ -632,6 +765,14 @@ class C12(Prop):
         return {'signature': 'dna-spec-keys-differ', 'what': 'to_dict(key_type=dna_spec) differs from key_type=id'}
       if not ob.get('lookups_identity', True):
         return {'signature': 'lookup-foreign-node', 'what': 'a look-up on %s handed out a node of another DNA' % me}
+      if ob.get('lookup_raises'):
+        return {'signature': 'lookup-raises',
+                'what': 'dna[key] raises for a decision point of the spec: %s (d = %s, spec %s)' % (
+                    ob['lookup_raises'][:3], me, G.spec_key(spec)[:400])}
+      if ob.get('node_ids_unresolved'):
+        return {'signature': 'node-ids-unresolved',
+                'what': 'node.decision_ids lists ids that node[id] cannot resolve: %s (d = %s, spec %s)' % (
+                    ob['node_ids_unresolved'][:3], me, G.spec_key(spec)[:400])}
       bad = [x for x in ob['lookups'] if x is not True]
       if bad:
         return {'signature': 'lookup-differs-from-rebuilt', 'what': 'd[key] differs from rebuilt[key]: %s' % bad[:3]}
@@ -650,6 +791,18 @@ class C12(Prop):
           return {'signature': 'misaligned-after:' + op['op'],
                   'what': 'after %s the views / node bindings differ from those of a DNA rebuilt from the raw numbers '
                           '(start %s, ops %s)' % (op['op'], ch['start'], ch['ops'])}
+    # last (a known finding must not hide anything else)
+    for o, ob in zip(m['dnas'], obs['dnas']):
+      if ob.get('subchoice_node_parent_id_unresolved'):
+        return {'signature': 'subchoice-node-parent-id-unresolved',
+                'what': 'the node bound to sub-choice i >= 1 of a multi-choice lists the multi-choice id in '
+                        'decision_ids, but node[that id] raises: %s, d = %s' % (
+                            ob['subchoice_node_parent_id_unresolved'][:3], o['norm'])}
+    for o, ob in zip(m['dnas'], obs['dnas']):
+      if ob.get('name_lookup_raises'):
+        return {'signature': 'lookup-by-name-inactive-raises',
+                'what': 'dna[name] raises for an inactive named decision point (dna[id] answers None): %s, d = %s' % (
+                    ob['name_lookup_raises'][:3], o['norm'])}
     return None
 
   def nontrivial(self, case, out):
